@@ -1,17 +1,26 @@
-import AndaVerif.Drv.ObjStoreProto
+import AndaVerif.Drv.ObjStoreConcProto
 /-
 Driver of the C08 model (wrapper model with crash cuts, garbage collection, legacy objects, backend
-dump); protocol in `Drv/ObjStoreProto.lean`.
+dump, replay of interleavings on the concurrent model); protocol in `Drv/ObjStoreProto.lean` and
+`Drv/ObjStoreConcProto.lean`.
 -/
-open AndaVerif.Drv AndaVerif.ObjStoreProto
+open AndaVerif.Drv AndaVerif.ObjStoreProto AndaVerif.ObjStoreConcProto
 
 namespace AndaVerif.DrvC08
 
-def step (st : St) (line : String) : St × String :=
-  match stepC08 st (words line) with
-  | some r => r
-  | none => (st, "bad-op")
+structure DSt where
+  st : St := {}
+  conc : Option ConcSt := none
+
+def step (d : DSt) (line : String) : DSt × String :=
+  let ws := words line
+  match stepConc d.st d.conc ws with
+  | some (st, conc, out) => ({ st := st, conc := conc }, out)
+  | none =>
+      match stepC08 d.st ws with
+      | some (st, out) => ({ st := st, conc := if ws.head? = some "reset" then none else d.conc }, out)
+      | none => (d, "bad-op")
 
 end AndaVerif.DrvC08
 
-def main : IO Unit := lineLoop ({} : AndaVerif.ObjStoreProto.St) AndaVerif.DrvC08.step
+def main : IO Unit := lineLoop ({} : AndaVerif.DrvC08.DSt) AndaVerif.DrvC08.step
